@@ -1,12 +1,14 @@
 rc_target("c14_log", flavour="asan")
 rc_target("c14_bg", flavour="sched", wrap=True)
-plan("C14", [T("c14_log", 6000, 60000), T("c14_bg", 3000, 25000)], min_nt=200,
+# second engine for the threaded clauses: free-running threads under ThreadSanitizer (see c17_race / DESIGN 9.4 e)
+rc_target("c14_race", flavour="tsan", race_oracle=True)
+plan("C14", [T("c14_log", 6000, 60000), T("c14_bg", 3000, 25000), T("c14_race", 1200, 10000, 3, 8)], min_nt=200,
      rule="log-call programs against a recording writer / memory stream",
-     technique="property-based testing: generated log-call programs, line grammar + exact message oracle, level-filter model; background channel under the controlled scheduler",
+     technique="property-based testing: generated log-call programs, line grammar + exact message oracle, level-filter model; background channel under the controlled scheduler + the same kind of generated program on free-running threads under ThreadSanitizer (race report or functional oracle)",
      level_text="Generated search. Part A: programs of log calls, level changes and direct formatter calls; every delivered line is parsed against the "
                 "documented line grammar and compared with the harness' own rendering of the message; filtered calls must produce nothing; cut "
                 "lines must stay inside the buffer and end in a newline. Part B: logging threads and the background channel run under the "
-                "controlled scheduler; exactly-once, per-thread order, nothing after clean-up, no leak, no deadlock. Sampling, not proof.",
+                "controlled scheduler; exactly-once, per-thread order, nothing after clean-up, no leak, no deadlock. Sampling, not proof. Second engine (*_race target): real parallel threads under ThreadSanitizer, whose happens-before analysis sees unsynchronised accesses that the controlled scheduler cannot (a section without lock calls has no decision point); a report or a functional failure there is a violation, replayed 12 times and reported when it shows twice.",
      assumptions=["timestamps are checked for their format only (the wall clock is not an oracle)",
                   "clean-up of the background channel is called after the sending threads are done (API requirement)",
                   "sequential consistency for the threaded part (DESIGN 4.4)"])
